@@ -376,7 +376,7 @@ func TestRace(t *testing.T) {
 		// retransmissions while acknowledgements come in (every 3rd / 4th
 		// packet of a direction is lost), adaptive timeouts
 		"bidi/N=3/k1=12/k2=12/adaptive/freeloss=3", "uni/N=2/k=16/adaptive/freeloss=4/ka=2s,1s",
-		"tmstress", "tmstress/static",
+		"tmstress", "tmstress/static", "queue3",
 	}
 	if only := os.Getenv("VERIF_RACE_ONLY"); only != "" {
 		scenarios = strings.Split(only, ";")
